@@ -22,8 +22,11 @@ enum Item {
     JmpRax,
     Int3,
     CallOverRet,
+    /// the same `jmp rax` taken twice in a row with two different targets (no other traced
+    /// event in between): must be two entries, not one entry with count 2
+    IndirectTwice,
 }
-const ITEMS: [Item; 11] = [
+const ITEMS: [Item; 12] = [
     Item::JmpNext,
     Item::Loop,
     Item::JeTaken,
@@ -35,6 +38,7 @@ const ITEMS: [Item; 11] = [
     Item::JmpRax,
     Item::Int3,
     Item::CallOverRet,
+    Item::IndirectTwice,
 ];
 
 const BASE: u64 = 0x40_1000;
@@ -49,6 +53,7 @@ fn item_len(i: Item) -> usize {
         Item::PushRet => 6,
         Item::CallRax | Item::JmpRax => 9,
         Item::CallOverRet => 8,
+        Item::IndirectTwice => 20,
     }
 }
 
@@ -82,6 +87,16 @@ fn assemble(p: &[Item]) -> Vec<u8> {
             Item::Int3 => out.push(0xCC),
             // call +2 ; jmp +1 ; ret   (a real call/return pair: call the ret, come back, skip it)
             Item::CallOverRet => out.extend_from_slice(&[0xE8, 0x02, 0, 0, 0, 0xEB, 0x01, 0xC3]),
+            Item::IndirectTwice => {
+                let b = BASE + pos;
+                out.extend_from_slice(&[0xEB, 0x09]); // jmp S
+                out.extend_from_slice(&[0x48, 0xC7, 0xC0]); // T1: mov rax, T2
+                out.extend_from_slice(&((b + 20) as u32).to_le_bytes());
+                out.extend_from_slice(&[0xFF, 0xE0]); // J: jmp rax
+                out.extend_from_slice(&[0x48, 0xC7, 0xC0]); // S: mov rax, T1
+                out.extend_from_slice(&((b + 2) as u32).to_le_bytes());
+                out.extend_from_slice(&[0xEB, 0xF5]); // jmp J
+            }
         }
     }
     out
@@ -321,6 +336,13 @@ pub fn run(tier: Tier) -> i32 {
     };
     let g = gen(maxlen);
     let out = run_enum(&o, &g);
+    if tier.is_thorough() && crate::common::embedded_fd().is_none() {
+        // the same enumeration (quick alphabets) in the dev-like build: debug assertions live,
+        // debug_log! arguments evaluated
+        let (f, summary) = crate::common::run_embedded("devlike", "C18");
+        run.findings.merge(f);
+        run.cov("devlike_profile_run", summary);
+    }
     enum_evidence(&mut run, &out, "one case = a program of <= L items over {jmp next, dec/jne countdown loop, je taken, je untaken, call next, ret, push addr+ret (unmatched return), mov+call rax, mov+jmp rax, int3, call/ret pair}; after every step the structured trace and call stack are compared with an independent tracer (iced decode, condition evaluated on the flags, targets from its own operand evaluation, run-length collapse), and trace()/call_stack()/to_string() are rendered under catch_unwind and an allocation guard; states = distinct programs; distinct_nontrivial = distinct trace histories");
     run.cov("program_max_length", json!(maxlen));
     run.guard("cases", out.cases >= 10_000 || out.capped, format!("{} programs", out.cases));
